@@ -188,9 +188,17 @@ def run_property(prop: str, tier: str, rule_fn, evidence_path: str, selftest_fn=
         ctx = Ctx(prop, tier, tree)
         rule_fn(ctx)
         floors = ctx.check_floors()
+        st_err = None
         if tier == "thorough" and selftest_fn is not None and not floors:
-            selftest_fn(ctx)
+            try:
+                selftest_fn(ctx)
+            except AnalysisError as e:  # a violation found on this tree takes precedence over the checker's self-test
+                st_err = e
         rc = finish(ctx, t0, seed, evidence_path)
+        if rc == 0 and st_err is not None:
+            raise st_err
+        if st_err is not None:
+            print(f"INFO: {st_err}")
         if rc == 0 and floors:
             raise AnalysisError("; ".join(floors))
         for fl in floors:
